@@ -1,6 +1,8 @@
 import Mouette.Generated.C01Acc
 import Mouette.Model.Surface
 import Mouette.Lemmas.C01HalfEdge
+import Mouette.Lemmas.C01Source
+import Mathlib.Tactic.Tauto
 /-! Bridges for the search loops (`in_face_index`, `common_edge`) and the cache reads TRANSLATED into `Generated/C01Acc.lean`. -/
 namespace Mouette.Lemmas.C01Acc
 open Mouette.Surface Mouette.SurfSource
@@ -232,5 +234,138 @@ theorem faceToFaces_bridge (S : Surf) (d : FDict) (f : Nat) :
     simp only [Option.map_some]
     rw [List.filterMap_map]
     rfl
+
+
+/-! ### `PolyLine._Connectivity._compute_connectivity` (the neighbour sets `_adjV2V`) -/
+open Mouette.Generated.C01Acc Mouette.Lemmas.C01Source
+
+theorem v2cnGet_set (t : V2Cn) (i v : Nat) (l : List Nat) :
+    v2cnGet (t.set i l) v = if i = v ∧ i < t.length then l else v2cnGet t v := by
+  unfold v2cnGet
+  rw [List.getD_eq_getElem?_getD, List.getD_eq_getElem?_getD, List.getElem?_set]
+  by_cases h : i = v
+  · subst h
+    by_cases hl : i < t.length
+    · simp [hl]
+    · have : t[i]? = none := List.getElem?_eq_none (by omega)
+      simp [hl, this]
+  · simp [h]
+
+theorem v2cnGet_add (t : V2Cn) (a c v : Nat) :
+    v2cnGet (v2cnAdd t a c) v = if a = v ∧ a < t.length then setAdd (v2cnGet t v) c else v2cnGet t v := by
+  unfold v2cnAdd
+  rw [v2cnGet_set]
+  by_cases h : a = v ∧ a < t.length
+  · obtain ⟨rfl, _⟩ := h; simp [*, v2cnGet]
+  · simp [h]
+
+theorem length_v2cnAdd (t : V2Cn) (a c : Nat) : (v2cnAdd t a c).length = t.length := by simp [v2cnAdd]
+
+/-- `w` is joined to `v` by one of the edges of `l` -/
+def Joined (l : List (Nat × Nat)) (v w : Nat) : Prop := ∃ e ∈ l, (e.1 = v ∧ e.2 = w) ∨ (e.2 = v ∧ e.1 = w)
+
+theorem add2_spec (t : V2Cn) (a b : Nat) (ha : a < t.length) (hb : b < t.length) :
+    (v2cnAdd (v2cnAdd t a b) b a).length = t.length ∧
+    ∀ v, (∀ w, w ∈ v2cnGet (v2cnAdd (v2cnAdd t a b) b a) v ↔ w ∈ v2cnGet t v ∨ ((a = v ∧ b = w) ∨ (b = v ∧ a = w))) ∧
+      ((v2cnGet t v).Nodup → (v2cnGet (v2cnAdd (v2cnAdd t a b) b a) v).Nodup) := by
+  refine ⟨by rw [length_v2cnAdd, length_v2cnAdd], fun v => ?_⟩
+  have hget : v2cnGet (v2cnAdd (v2cnAdd t a b) b a) v =
+      (if b = v then setAdd (if a = v then setAdd (v2cnGet t v) b else v2cnGet t v) a
+       else (if a = v then setAdd (v2cnGet t v) b else v2cnGet t v)) := by
+    rw [v2cnGet_add, v2cnGet_add, length_v2cnAdd]
+    simp only [ha, hb, and_true]
+  rw [hget]
+  refine ⟨fun w => ?_, fun hnd => ?_⟩
+  · by_cases hb' : b = v <;> by_cases ha' : a = v <;> simp only [hb', ha', if_true, if_false, mem_setAdd] <;>
+      constructor <;> intro h <;> simp_all <;> tauto
+  · by_cases hb' : b = v <;> by_cases ha' : a = v <;> simp only [hb', ha', if_true, if_false] <;>
+      first | exact hnd | exact nodup_setAdd _ _ hnd | exact nodup_setAdd _ _ (nodup_setAdd _ _ hnd)
+
+theorem poly_fold (S : Surf) (l : List (Nat × Nat)) : ∀ (t : V2Cn), (∀ e ∈ l, e.1 < t.length ∧ e.2 < t.length) →
+    (l.foldl (polyComputeConnectivity_for1_step S) t).length = t.length ∧
+    ∀ v, v < t.length →
+      (∀ w, w ∈ v2cnGet (l.foldl (polyComputeConnectivity_for1_step S) t) v ↔ w ∈ v2cnGet t v ∨ Joined l v w) ∧
+      ((v2cnGet t v).Nodup → (v2cnGet (l.foldl (polyComputeConnectivity_for1_step S) t) v).Nodup) := by
+  induction l with
+  | nil => intro t _; exact ⟨rfl, fun v _ => ⟨fun w => by simp [Joined], id⟩⟩
+  | cons e l ih =>
+    intro t hr
+    obtain ⟨a, b⟩ := e
+    have hab := hr (a, b) (List.mem_cons_self ..)
+    rw [List.foldl_cons]
+    -- the two `.add` calls, in either order
+    have hstep : ∃ t', polyComputeConnectivity_for1_step S t (a, b) = t' ∧ t'.length = t.length ∧
+        ∀ v, (∀ w, w ∈ v2cnGet t' v ↔ w ∈ v2cnGet t v ∨ ((a = v ∧ b = w) ∨ (b = v ∧ a = w))) ∧
+          ((v2cnGet t v).Nodup → (v2cnGet t' v).Nodup) := by
+      first
+        | exact ⟨v2cnAdd (v2cnAdd t a b) b a, rfl, add2_spec t a b hab.1 hab.2⟩
+        | (obtain ⟨h1, h2⟩ := add2_spec t b a hab.2 hab.1
+           exact ⟨v2cnAdd (v2cnAdd t b a) a b, rfl, h1, fun v => ⟨fun w => by rw [(h2 v).1 w, or_comm (a := b = v ∧ a = w)], (h2 v).2⟩⟩)
+    obtain ⟨t', ht', hlen, hspec⟩ := hstep
+    rw [ht']
+    obtain ⟨h1, h2⟩ := ih t' (fun e he => by rw [hlen]; exact hr e (List.mem_cons_of_mem _ he))
+    refine ⟨h1.trans hlen, fun v hv => ?_⟩
+    obtain ⟨hm, hn⟩ := h2 v (by rw [hlen]; exact hv)
+    refine ⟨fun w => ?_, fun hnd => hn ((hspec v).2 hnd)⟩
+    rw [hm, (hspec v).1 w]
+    have hJ : Joined ((a, b) :: l) v w ↔ ((a = v ∧ b = w) ∨ (b = v ∧ a = w)) ∨ Joined l v w := by
+      unfold Joined; simp only [List.mem_cons, exists_eq_or_imp]
+    rw [hJ, or_assoc]
+
+theorem poly_fold2 (S : Surf) (l : List Nat) : ∀ (t : V2Cn) (v : Nat),
+    v2cnGet (l.foldl (polyComputeConnectivity_for2_step S) t) v = v2cnGet t v := by
+  induction l with
+  | nil => intro t v; rfl
+  | cons u l ih =>
+    intro t v
+    rw [List.foldl_cons, ih]
+    show v2cnGet (v2cnSet t u (v2cnGet t u)) v = _
+    unfold v2cnSet
+    rw [v2cnGet_set]
+    by_cases h : u = v ∧ u < t.length
+    · obtain ⟨rfl, _⟩ := h; simp [*]
+    · simp [h]
+
+theorem mem_neighbours (S : Surf) (v w : Nat) : w ∈ neighbours S v ↔ Joined S.edges v w := by
+  unfold neighbours sortNat Joined
+  rw [(List.mergeSort_perm _ _).mem_iff, List.mem_filterMap]
+  constructor
+  · rintro ⟨⟨a, b⟩, he, h⟩
+    refine ⟨(a, b), he, ?_⟩
+    by_cases ha : a = v
+    · subst ha; simp at h; exact Or.inl ⟨rfl, h⟩
+    · have ha' : (a == v) = false := by simpa using ha
+      simp only [ha', Bool.false_eq_true, if_false] at h
+      by_cases hb : b = v
+      · subst hb; simp at h; exact Or.inr ⟨rfl, h⟩
+      · have hb' : (b == v) = false := by simpa using hb
+        simp [hb'] at h
+  · rintro ⟨⟨a, b⟩, he, h⟩
+    refine ⟨(a, b), he, ?_⟩
+    rcases h with ⟨h1, h2⟩ | ⟨h1, h2⟩
+    · simp only at h1 h2; subst h1; subst h2; simp
+    · simp only at h1 h2; subst h1; subst h2
+      by_cases ha : a = b
+      · subst ha; simp
+      · have ha' : (a == b) = false := by simpa using ha
+        simp [ha']
+
+/-- **bridge** `PolyLine._Connectivity._compute_connectivity`: for every vertex id, the set it builds has exactly the elements of
+the model's `neighbours`, each once (the iteration order of a Python set is not modelled) -/
+theorem polyComputeConnectivity_bridge (S : Surf) (hR : ∀ e ∈ S.edges, e.1 < S.nv ∧ e.2 < S.nv) (v : Nat) (hv : v < S.nv) :
+    (∀ w, w ∈ v2cnGet (polyComputeConnectivity S) v ↔ w ∈ neighbours S v) ∧ (v2cnGet (polyComputeConnectivity S) v).Nodup := by
+  have h0 : (List.replicate S.nv ([] : List Nat)).length = S.nv := List.length_replicate
+  obtain ⟨_, h2⟩ := poly_fold S S.edges (List.replicate S.nv []) (fun e he => by rw [h0]; exact hR e he)
+  obtain ⟨hm, hn⟩ := h2 v (by rw [h0]; exact hv)
+  have hempty : v2cnGet (List.replicate S.nv ([] : List Nat)) v = [] := by
+    simp [v2cnGet, List.getD_eq_getElem?_getD, List.getElem?_replicate, hv]
+  have hshape : v2cnGet (polyComputeConnectivity S) v =
+      v2cnGet (List.foldl (polyComputeConnectivity_for1_step S) (List.replicate S.nv []) S.edges) v := by
+    show v2cnGet (List.foldl (polyComputeConnectivity_for2_step S) _ (List.range S.nv)) v = _
+    rw [poly_fold2]
+  rw [hshape]
+  refine ⟨fun w => ?_, hn (by rw [hempty]; exact List.nodup_nil)⟩
+  rw [hm, hempty, mem_neighbours]
+  simp
 
 end Mouette.Lemmas.C01Acc
